@@ -1,11 +1,12 @@
 """C08 — active fabric (see DESIGN §8): Lean Conc.Fab model tied to the real fabric threads under dsched."""
-import fabric_corr
+import fabric_corr, pubsub_corr
 
 
 def explore(run, lean):
     fabric_corr.explore(run, "C08", 200 if run.tier == "quick" else 4000)
     fabric_corr.explore_fe_order(run, 200 if run.tier == "quick" else 5000)
     fabric_corr.explore_heap(run, 150 if run.tier == "quick" else 4000)
+    pubsub_corr.explore_publish_order(run, "C08", 16 if run.tier == "quick" else 400)
     run.extra["rule"] = ("scenarios: 1-4 subscriber queues (plain deques and active-object LockingDeques, several of them empty = equal "
                          "contents), one or two client threads issuing subscribe/publish/start/stop/clear/is_alive (start/stop/clear "
                          "from one thread only); half of them structured (subscribe*, publish* before the first start = maximal "
@@ -13,9 +14,11 @@ def explore(run, lean):
                          "replayed on the Lean model and compared per step and on the final registry, queue contents, thread counts")
     run.assumptions.append("queue.PriorityQueue put/get = heapq.heappush/heappop as transcribed in Data/Heap.lean (array layouts compared "
                            "on every operation of the heap stream); GIL atomicity of each Queue primitive")
-    ROUND6_RULE = '; heap stream: put/get sequences on a real PriorityQueue of real FabricEvents, array layout compared with the Lean heap model after every operation; heap condition of the fabric queues checked after every replay'
+    ROUND6_RULE = '; heap stream: put/get sequences on a real PriorityQueue of real FabricEvents, array layout compared with the Lean heap model after every operation; heap condition of the fabric queues checked after every replay; priorities given to ActiveObject.publish (spied / un-spied charts, from outside / from a handler) with the delivery thread held in a slow subscriber'
     run.extra["rule"] += ROUND6_RULE
 
 
 def replay(case):
+    if case.get("case", case).get("publish_order"):
+        return pubsub_corr.replay(case)
     return fabric_corr.replay(case)
